@@ -191,7 +191,7 @@ def run_sequence(rng, n_ops):
     for step in range(n_ops):
         op = str(rng.choice(["set", "set", "update", "commit", "commit", "get_current", "get_current_all", "get_history_idx",
                              "get_history_flat", "get_history_all", "get_last", "to_dict", "results", "roundtrip_dict",
-                             "update_from_dict", "save_load", "logw"]))
+                             "update_from_dict", "save_load", "logw", "commit_strict", "unset"]))
         try:
             if ragged and op in ("set", "update") and rng.random() < 0.5:
                 n = int(rng.integers(1, 6))
@@ -227,6 +227,25 @@ def run_sequence(rng, n_ops):
                 sm.commit_current_to_history()
                 ref.commit()
                 note("commit")
+            elif op == "unset":
+                # the caller clears one quantity of the current state (e.g. before refilling it)
+                k = str(rng.choice(["beta", "logl", "logz", "u", "x"]))
+                sm.set_current(k, None)
+                ref.set(k, None)
+                note("unset")
+            elif op == "commit_strict":
+                # strict commits are refused while beta or logl is missing; a refused commit must leave no trace
+                ok = ref.cur.get("beta") is not None and ref.cur.get("logl") is not None
+                try:
+                    sm.commit_current_to_history(strict=True)
+                    if not ok:
+                        bad.append(("strict-commit-accepted", "commit_current_to_history(strict=True) succeeded although beta or logl is None"))
+                    ref.commit()
+                    note("commit_strict")
+                except ValueError:
+                    if ok:
+                        raise
+                    note("commit_strict:refused")
             elif op == "get_current":
                 k = str(rng.choice(RefState.CUR))
                 r = sm.get_current(k)
